@@ -386,3 +386,408 @@ def r14_9_get_value_text(ctx, rid='R14.9'):
         r.fail(m.key('bare-%s-on-node-text' % kind), m.loc(n), 'matches() converts node text with %s(): a float attribute holding '
                'inf/nan is represented as .inf/.nan and float(".inf") raises ValueError while sweetening' % kind)
     r.done()
+
+
+# =====================================================================================================
+# C15
+# =====================================================================================================
+
+WRITE_METHODS = {'set_attribute', 'remove_attribute', 'make_mapping', 'set_value', 'rename_attribute',
+                 'remove_attributes_with_default_values', 'unders_to_dashes_in_keys', 'dashes_to_unders_in_keys'} | set(TRANSFORMS)
+
+
+def node_writes(f: Fn) -> List[ast.AST]:
+    """statements/calls of f that modify a yaml node reachable from self (stores into .value/.yaml_node/.tag/marks,
+    mutators on .value lists, calls of writing Node methods) - fresh local lists are not node writes"""
+    out = []
+    fresh = set()
+    for n in f.walk():
+        if isinstance(n, ast.Assign) and len(n.targets) == 1 and isinstance(n.targets[0], ast.Name) \
+                and (norm(n.value) in ('list()', '[]', 'set()', 'dict()') or isinstance(n.value, (ast.List, ast.ListComp))):
+            fresh.add(n.targets[0].id)
+    for n in f.walk():
+        if isinstance(n, ast.Attribute) and isinstance(n.ctx, (ast.Store, ast.Del)) and n.attr in (
+                'value', 'yaml_node', 'tag', 'start_mark', 'end_mark', 'flow_style', 'style'):
+            out.append(n)
+        elif isinstance(n, ast.Subscript) and isinstance(n.ctx, (ast.Store, ast.Del)) and '.value' in norm(n.value):
+            out.append(n)
+        elif isinstance(n, ast.Call) and isinstance(n.func, ast.Attribute):
+            if n.func.attr in MUTATORS and isinstance(n.func.value, ast.Name) and n.func.value.id in fresh:
+                continue
+            if n.func.attr in MUTATORS and '.value' in norm(n.func.value):
+                out.append(n)
+            elif n.func.attr in WRITE_METHODS:
+                out.append(n)
+    return out
+
+
+def typestate_methods(P: Program) -> Dict[str, str]:
+    """Node methods whose docstring says 'Use only if is_mapping()/is_sequence() returns True' -> required kind"""
+    out = {}
+    c = P.cls('yatiml.helpers:Node')
+    for name, m in c.methods.items():
+        d = ' '.join(m.docstring().split())
+        if 'Use only if' in d:
+            seg = d[d.index('Use only if'):][:120]
+            kinds = []
+            if 'is_mapping' in seg:
+                kinds.append('mapping')
+            if 'is_sequence' in seg:
+                kinds.append('sequence')
+            if kinds:
+                out[name] = '|'.join(kinds)
+    if len(out) < 6:
+        raise AnalysisError('the typestate notes ("Use only if is_mapping() returns True") were not found in Node\'s docstrings')
+    return out
+
+
+def kind_known(f: Fn, call: ast.Call, recv: str, kind: str) -> bool:
+    cls = {'mapping': 'MappingNode', 'sequence': 'SequenceNode'}
+    gs = f.guards(call)
+    for k in kind.split('|'):
+        if any(norm(g) == '%s.is_%s()' % (recv, k) and p for g, p in gs):
+            return True
+        if known_instance(gs, recv + '.yaml_node', {cls[k]}):
+            return True
+        # receiver is Node(x) with isinstance(x, K) known
+        for rhs in assigned_from(f, recv) if recv.isidentifier() else []:
+            if isinstance(rhs, ast.Call) and call_name(rhs) == 'Node' and rhs.args and known_instance(gs, norm(rhs.args[0]), {cls[k]}):
+                return True
+        # `if not recv.is_kind(): return` earlier on every path
+        pos = S.branch_nodes(f, lambda a, k=k: S.atom_is(a, '%s.is_%s()' % (recv, k), True))
+        if k == 'mapping':
+            # recv.make_mapping() turns the wrapper into a mapping
+            pos = pos | {f.nid(c) for c in f.calls('make_mapping') if norm(c.func.value) == recv and f.nid(c) != f.nid(call)}
+        if pos and f.cfg.must_pass(f.cfg.entry, f.nid(call), pos):
+            return True
+    return False
+
+
+def r15_1_typestate(ctx, rid='R15.1', scope='helpers'):
+    P = ctx.P
+    r = ctx.rule(rid, 'Node typestate (from the docstrings\' own "Use only if is_mapping()/is_sequence() returns True"): such a '
+                      'method is called only on a receiver known to wrap that kind of node', floor=5)
+    ts = typestate_methods(P)
+    r.ok('typestate methods read from the docstrings: %s' % sorted(ts.items()))
+    for fi in P.yatiml_functions():
+        in_helpers = fi.module.name == 'yatiml.helpers'
+        if (scope == 'helpers') != in_helpers:
+            continue
+        f = None
+        for c in walk_function(fi.node):
+            if isinstance(c, ast.Call) and isinstance(c.func, ast.Attribute) and c.func.attr in ts:
+                recv = norm(c.func.value)
+                if recv == 'self':
+                    continue        # inside Node: the obligation is the caller's
+                f = f or S.fn_of(fi)
+                if not f.live(c):
+                    continue
+                ok = kind_known(f, c, recv, ts[c.func.attr])
+                r.check(ok, '%s: %s.%s() on a known %s' % (fi.qual, recv, c.func.attr, ts[c.func.attr]),
+                        '%s:typestate:%s.%s' % (fi.key, recv, c.func.attr), fi.loc(c),
+                        '%s.%s() is called although %s is not known to wrap a %s node: for a scalar the pair-unpacking loop raises '
+                        'ValueError (iterating over characters)' % (recv, c.func.attr, recv, ts[c.func.attr]))
+    r.done()
+
+
+def exit_id(f: Fn, x: ast.AST) -> str:
+    """stable name of an exit: its kind, exception class, and innermost guard"""
+    gt = f.guard_texts(x)
+    what = 'return' if isinstance(x, ast.Return) else 'raise %s' % S.raise_class(x)
+    return '%s@%s' % (what, gt[-1] if gt else 'entry')
+
+
+def r15_2_do_nothing_exits(ctx, rid='R15.2'):
+    P = ctx.P
+    r = ctx.rule(rid, 'transforms are all-or-nothing: no node write can be followed by a do-nothing return or a raise; raises occur '
+                      'only where documented (duplicate key under strict, non-string key attribute)', floor=8)
+    for name in TRANSFORMS:
+        f = fn(P, NODE + name)
+        ws = [(w, f.nid(w)) for w in node_writes(f)]
+        ws = [(w, n) for w, n in ws if n is not None]
+        exits = [x for x in f.returns() if x.value is None] + f.raises()
+        for x in exits:
+            xn = f.nid(x)
+            bad = [w for w, wn in ws if xn in f.cfg.reachable(wn) and wn != xn]
+            kind = 'return' if isinstance(x, ast.Return) else 'raise'
+            r.check(not bad, '%s: %s at %s is not preceded by a node write' % (name, kind, f.loc(x)),
+                    f.key('%s-after-write:%s' % (kind, exit_id(f, x))), f.loc(x),
+                    '%s: the %s at line %d can be reached after the node was already modified (%s at line %d): the node is left '
+                    'half-transformed' % (name, 'silent return' if kind == 'return' else 'raise', x.lineno,
+                                          norm(bad[0])[:40] if bad else '', bad[0].lineno if bad else 0))
+        for x in f.raises():
+            gt = f.guard_texts(x)
+            documented = any(t == 'strict' for t in gt) or any('.is_scalar(str)' in t and t.startswith('not ') for t in gt)
+            r.check(documented, '%s: raise under %s (documented)' % (name, [t for t in gt if t == 'strict' or 'is_scalar' in t]),
+                    f.key('undocumented-raise:%s' % exit_id(f, x)), f.loc(x),
+                    '%s raises %s where the documentation says it silently does nothing' % (name, norm(x)[:60]))
+        # presence / kind guards come first
+        attr = f.fi.params[1]
+        firsts = [w for w, wn in ws]
+        pres = S.branch_nodes(f, lambda a: S.atom_is(a, 'self.has_attribute(%s)' % attr, True))
+        for w, wn in ws:
+            r.check(bool(pres) and f.cfg.must_pass(f.cfg.entry, wn, pres), '%s: write %s is dominated by has_attribute(%s)'
+                    % (name, norm(w)[:30], attr), f.key('write-without-presence:%s' % norm(w)[:30]), f.loc(w),
+                    '%s writes the node without having checked that the attribute exists' % name)
+    r.done()
+
+
+def r15_3_mirror(ctx):
+    P = ctx.P
+    r = ctx.rule('R15.3', 'unders_to_dashes_in_keys and dashes_to_unders_in_keys are mirror images over all keys', floor=2)
+    shapes = {}
+    for name, a, b in (('unders_to_dashes_in_keys', '_', '-'), ('dashes_to_unders_in_keys', '-', '_')):
+        f = fn(P, NODE + name)
+        loops = [n for n in f.walk() if isinstance(n, ast.For) and norm(n.iter) == 'self.yaml_node.value']
+        ok = False
+        if len(loops) == 1 and whole_collection_loop(loops[0]) and isinstance(loops[0].target, ast.Tuple):
+            kv = norm(loops[0].target.elts[0])
+            body = [st for st in loops[0].body]
+            ok = len(body) == 1 and isinstance(body[0], ast.Assign) and norm(body[0].targets[0]) == '%s.value' % kv \
+                and norm(body[0].value) == "%s.value.replace(%r, %r)" % (kv, a, b)
+        r.check(ok, '%s: every key text gets replace(%r, %r)' % (name, a, b), f.key('shape'), f.loc(),
+                '%s does not replace %r by %r in every key' % (name, a, b))
+    r.done()
+
+
+def _inloop_atoms(f: Fn, n: ast.AST, loop: ast.AST) -> Set[Tuple[str, bool]]:
+    return {(norm(b.ast), b.pol) for b in f.cfg.guard_nodes(f.nid(n))
+            if any(x is loop for x in S._ancestors_list(b.ast)) and not isinstance(b.ast, ast.BoolOp)}
+
+
+def r15_5_decisions(ctx):
+    P = ctx.P
+    r = ctx.rule('R15.5', 'the transforms decide on exactly the documented conditions (wrap a non-mapping value only when a value '
+                          'attribute is given; short form only when the value attribute is the sole remaining key)', floor=4)
+    # map_attribute_to_index: wrap
+    f = fn(P, NODE + 'map_attribute_to_index')
+    lo = [n for n in f.walk() if isinstance(n, ast.For) and 'yaml_node.value' in norm(n.iter)][0]
+    kv, vv = (norm(x) for x in lo.target.elts)
+    va = f.fi.params[3]
+    wraps = [n for n in ast.walk(lo) if isinstance(n, ast.Call) and norm(n.func) in ('yaml.MappingNode', 'MappingNode')]
+    for w in wraps:
+        at = _inloop_atoms(f, w, lo)
+        exp = {('isinstance(%s, yaml.MappingNode)' % vv, False), ('%s is not None' % va, True)}
+        r.check(at == exp, 'map_attribute_to_index wraps exactly when the value is not a mapping and a value attribute is given',
+                f.key('wrap-condition'), f.loc(w), 'map_attribute_to_index wraps a value under %s (documented: any value that is not '
+                'a mapping, when value_attribute is given - lists included)' % sorted(at))
+    if not wraps:
+        r.fail(f.key('no-wrap'), f.loc(), 'map_attribute_to_index never wraps short-form values')
+    apps = [n for n in ast.walk(lo) if isinstance(n, ast.Call) and isinstance(n.func, ast.Attribute) and n.func.attr == 'append'
+            and '.value' in norm(n.func.value)]
+    for a in apps:
+        at = _inloop_atoms(f, a, lo)
+        r.check(len(at) == 1 and next(iter(at))[1] and 'isinstance(' in next(iter(at))[0] and 'MappingNode' in next(iter(at))[0],
+                'the key attribute is added to every mapping value', f.key('key-attribute-condition'), f.loc(a),
+                'the key attribute is added under %s' % sorted(at))
+    # index_attribute_to_map: short form
+    f = fn(P, NODE + 'index_attribute_to_map')
+    lo = [n for n in f.walk() if isinstance(n, ast.For) and 'yaml_node.value' in norm(n.iter)][0]
+    kv, vv = (norm(x) for x in lo.target.elts)
+    va, ka = f.fi.params[3], f.fi.params[2]
+    short = [n for n in ast.walk(lo) if isinstance(n, ast.Call) and isinstance(n.func, ast.Attribute) and n.func.attr == 'append'
+             and n.args and isinstance(n.args[0], ast.Tuple) and norm(n.args[0].elts[1]) == '%s.value[0][1]' % vv]
+    for a in short:
+        at = {x for x in _inloop_atoms(f, a, lo) if 'isinstance' not in x[0]}
+        exp = {('len(%s.value) == 1' % vv, True), ('%s.value[0][0].value == %s' % (vv, va), True)}
+        r.check(at == exp, 'index_attribute_to_map: short form exactly when one key remains and it is the value attribute',
+                f.key('short-form-condition'), f.loc(a), 'index_attribute_to_map uses the short form under %s: an entry whose only '
+                'remaining key is NOT the value attribute is collapsed and cannot be expanded again' % sorted(at))
+    if not short:
+        r.fail(f.key('no-short-form'), f.loc(), 'index_attribute_to_map never produces the short form')
+    filt = [n for n in ast.walk(lo) if isinstance(n, ast.Assign) and norm(n.targets[0]) == '%s.value' % vv and isinstance(n.value, ast.ListComp)]
+    r.check(len(filt) == 1 and [norm(c) for c in filt[0].value.generators[0].ifs] == ['%s.value != %s' % (
+        norm(filt[0].value.generators[0].target.elts[0]), ka)], 'the key attribute (and only it) is filtered out of each entry',
+        f.key('key-filter'), f.loc(), 'index_attribute_to_map does not remove exactly the key attribute from each entry')
+    # seq_attribute_to_map: short form
+    f = fn(P, NODE + 'seq_attribute_to_map')
+    va = f.fi.params[3]
+    apps = [n for n in f.walk() if isinstance(n, ast.Call) and isinstance(n.func, ast.Attribute) and n.func.attr == 'append'
+            and n.args and isinstance(n.args[0], ast.Tuple)]
+    shorts = [a for a in apps if norm(a.args[0].elts[1]) == 'value_node']
+    longs = [a for a in apps if norm(a.args[0].elts[1]) == 'item.yaml_node']
+    lo2 = [l for l in S.enclosing_loops(apps[0], f.node) if isinstance(l, ast.For)][0] if apps else None
+    for a in shorts:
+        at = _inloop_atoms(f, a, lo2)
+        exp = {('%s is not None' % va, True), ('len(item.yaml_node.value) == 1', True)}
+        r.check(at == exp, 'seq_attribute_to_map: short form exactly when a value attribute is given and it is the only other key',
+                f.key('short-form-condition'), f.loc(a), 'seq_attribute_to_map uses the short form under %s' % sorted(at))
+    r.check(bool(shorts) and bool(longs), 'seq_attribute_to_map has a short and a long form', f.key('forms'), f.loc(),
+            'seq_attribute_to_map lost its short or long form')
+    # map_attribute_to_seq: wrap
+    f = fn(P, NODE + 'map_attribute_to_seq')
+    va = f.fi.params[3]
+    mk = [c for c in f.calls('make_mapping')]
+    for c in mk:
+        lo3 = [l for l in S.enclosing_loops(c, f.node) if isinstance(l, ast.For)][0]
+        at = _inloop_atoms(f, c, lo3)
+        recv = norm(c.func.value)
+        exp = {('%s.is_mapping()' % recv, False), ('%s is None' % va, False)}
+        r.check(at == exp, 'map_attribute_to_seq wraps exactly a non-mapping value when a value attribute is given', f.key('wrap-condition'),
+                f.loc(c), 'map_attribute_to_seq wraps under %s' % sorted(at))
+    r.done()
+
+
+# =====================================================================================================
+# C16
+# =====================================================================================================
+
+def r16_1_purity(ctx, rid='R16.1', roots=None, what='require_*'):
+    P = ctx.P
+    from ..effects import world, call_closure, direct_writes
+    W = world(P)
+    r = ctx.rule(rid, '%s never modify the node: the direct writes in their call closure (through Recognizer.recognize) touch '
+                      'only fresh wrapper objects' % what, floor=3)
+    keys = roots or [fi.key for fi in P.yatiml_functions() if fi.key.startswith(UNK + 'require_')]
+    fis = call_closure(W, keys)
+    n = 0
+    for ev in direct_writes(W, fis):
+        if ev.fi.name == '__init__' and ev.fi.cls is not None and ev.fi.cls.name in ('Node', 'UnknownNode', 'Recognizer') \
+                and all(x.startswith('self') for x in ev.roots):
+            n += 1
+            continue
+        r.fail('%s:%s' % (ev.fi.key, norm(ev.node) if not isinstance(ev.node, ast.Call) else norm(ev.node.func)), ev.fi.loc(ev.node),
+               '%s (%s) writes %s: recognition / a require_* helper modifies the node it inspects' % (norm(ev.node)[:50], ev.how, sorted(ev.roots)))
+    r.ok('%d functions in the closure of %d roots; %d writes, all initialising fresh wrappers' % (len(fis), len(keys), n))
+    for k in keys[:6]:
+        r.ok('root %s' % k)
+    r.done()
+
+
+def r16_2_kind_first(ctx):
+    P = ctx.P
+    r = ctx.rule('R16.2', 'require_attribute* call require_mapping() before the first read of the pair list', floor=3)
+    for name in ('require_attribute', 'require_attribute_value', 'require_attribute_value_not'):
+        f = fn(P, UNK + name)
+        rm = [c for c in f.calls('require_mapping') if norm(c.func.value) == 'self' and f.live(c)]
+        reads = [n for n in f.walk() if isinstance(n, ast.Attribute) and n.attr == 'value' and norm(n.value) == 'self.yaml_node']
+        ok = bool(rm) and bool(reads) and all(any(f.cfg.dominates(f.nid(c), f.nid(x)) and f.nid(c) != f.nid(x) for c in rm) for x in reads)
+        alt = all(known_instance(f.guards(x), 'self.yaml_node', {'MappingNode'}) for x in reads) and bool(reads)
+        r.check(ok or alt, '%s: require_mapping() dominates every read of self.yaml_node.value' % name, f.key('mapping-first'), f.loc(),
+                '%s reads the pair list of a node that may not be a mapping: for a scalar the pair-unpacking loop raises ValueError '
+                'instead of RecognitionError' % name)
+    r.done()
+
+
+def r16_3_decisions(ctx):
+    P = ctx.P
+    r = ctx.rule('R16.3', 'each require_* helper raises RecognitionError exactly under the documented condition', floor=12)
+    # require_mapping / require_sequence
+    for name, cls_ in (('require_mapping', 'MappingNode'), ('require_sequence', 'SequenceNode')):
+        f = fn(P, UNK + name)
+        rs = f.raises()
+        ok = len(rs) == 1 and S.raise_class(rs[0]) == 'RecognitionError' and \
+            [(norm(g), p) for g, p in f.guards(rs[0])] == [('isinstance(self.yaml_node, yaml.%s)' % cls_, False)]
+        r.check(ok, '%s raises RecognitionError iff the node is not a %s' % (name, cls_), f.key('decision'), f.loc(),
+                '%s does not raise exactly when the node is not a %s' % (name, cls_))
+    # require_scalar
+    f = fn(P, UNK + 'require_scalar')
+    ap = f.fi.params[1]
+    wraps = [norm(x) for x in assigned_from(f, 'node')]
+    r.check('Node(self.yaml_node)' in wraps, 'require_scalar inspects Node(self.yaml_node)', f.key('wrapped-node'), f.loc(),
+            'require_scalar does not look at this node')
+    for rs in f.raises():
+        gt = [(norm(g), p) for g, p in f.guards(rs)]
+        none_given = ('len(%s) == 0' % ap, True) in gt or ('%s' % ap, False) in gt
+        if none_given:
+            r.check(('node.is_scalar()', False) in gt and S.raise_class(rs) == 'RecognitionError', 'require_scalar(): raises iff not '
+                    'node.is_scalar()', f.key('untyped'), f.loc(rs), 'require_scalar() raises under %s' % gt)
+        else:
+            # after a whole loop over the types in which a match returns
+            loops = [n for n in f.walk() if isinstance(n, ast.For) and norm(n.iter) == ap]
+            ok = False
+            for lo in loops:
+                tv = norm(lo.target)
+                rets = [x for st in lo.body for x in ast.walk(st) if isinstance(x, ast.Return)]
+                ok = bool(rets) and all({(norm(b.ast), b.pol) for b in f.cfg.guard_nodes(f.nid(x)) if any(y is lo for y in S._ancestors_list(b.ast))}
+                                        == {('node.is_scalar(%s)' % tv, True)} for x in rets) \
+                    and f.cfg.dominates(f.nid(lo.iter), f.nid(rs)) and not S.breaks_of(lo, f.node) \
+                    and not S.enclosing_loops(rs, f.node)
+            r.check(ok and S.raise_class(rs) == 'RecognitionError', 'require_scalar(types): returns iff node.is_scalar(t) for some t '
+                    '(is_scalar checks the node kind and the tag), raises after all were tried', f.key('typed'), f.loc(rs),
+                    'require_scalar(types) does not delegate the decision to Node.is_scalar(t) for each given type: e.g. a '
+                    'collection carrying an explicit scalar tag would be accepted')
+    # require_attribute
+    f = fn(P, UNK + 'require_attribute')
+    at, tp = f.fi.params[1], f.fi.params[2]
+    comps = [n for n in f.walk() if isinstance(n, ast.Assign) and isinstance(n.value, ast.ListComp) and isinstance(n.targets[0], ast.Name)]
+    lst = None
+    for n in comps:
+        g = n.value.generators[0]
+        if norm(g.iter) == 'self.yaml_node.value' and isinstance(g.target, ast.Tuple) and [norm(c) for c in g.ifs] == [
+                '%s.value == %s' % (norm(g.target.elts[0]), at)] and norm(n.value.elt) == norm(g.target.elts[1]):
+            lst = n.targets[0].id
+    r.check(lst is not None, 'require_attribute collects the values of the pairs whose key text equals the attribute (a list, no '
+            'hashing of keys)', f.key('lookup'), f.loc(), 'require_attribute does not look the attribute up by a plain scan over the pairs '
+            '(a dict lookup hashes key values and fails on complex keys; with a repeated key another occurrence would decide)')
+    if lst is not None:
+        miss = [x for x in f.raises() if f.card(x, lst) == {0}]
+        r.check(len(miss) == 1 and S.raise_class(miss[0]) == 'RecognitionError', 'raises iff no pair matches', f.key('missing'), f.loc(),
+                'require_attribute does not raise exactly when the attribute is missing')
+        firsts = [n for n in f.walk() if isinstance(n, ast.Subscript) and norm(n.value) == lst and isinstance(n.ctx, ast.Load)]
+        r.check(bool(firsts) and all(norm(n.slice) == '0' for n in firsts), 'the first matching pair decides', f.key('first-match'), f.loc(),
+                'require_attribute does not use the first matching pair')
+        rc = [c for c in f.calls('recognize') if f.live(c)]
+        okr = False
+        for c in rc:
+            st = enclosing_stmt(c)
+            a0 = f.copies.expand(c.args[0], 1) if c.args else None
+            if isinstance(st, ast.Assign) and isinstance(st.targets[0], ast.Tuple) and a0 is not None and norm(a0) == '%s[0]' % lst \
+                    and norm(c.func.value) == 'self.__recognizer' and f.has_guard(c, '%s != _Any' % tp, True, expand=False):
+                vv = norm(st.targets[0].elts[0])
+                rs = [x for x in f.raises() if f.card(x, vv) == {0}]
+                others = [x for x in f.raises() if x not in rs and x not in miss]
+                okr = len(rs) == 1 and S.raise_class(rs[0]) == 'RecognitionError' and not others
+        r.check(okr, 'with a type: raises iff the loader\'s recogniser returns an empty verdict for the attribute node', f.key('typed'), f.loc(),
+                'require_attribute(name, type) does not delegate to self.__recognizer.recognize(attribute node, type) / does not raise '
+                'exactly on an empty verdict')
+    # require_attribute_value / _not
+    for name, neg in (('require_attribute_value', False), ('require_attribute_value_not', True)):
+        f = fn(P, UNK + name)
+        at, vp = f.fi.params[1], f.fi.params[2]
+        loops = [n for n in f.walk() if isinstance(n, ast.For) and norm(n.iter) == 'self.yaml_node.value' and isinstance(n.target, ast.Tuple)]
+        if len(loops) != 1:
+            r.fail(f.key('pair-loop'), f.loc(), '%s does not scan the pairs once' % name)
+            continue
+        lo = loops[0]
+        kn, vn = (norm(x) for x in lo.target.elts)
+        keyatoms = {("%s.tag == 'tag:yaml.org,2002:str'" % kn, True), ('%s.value == %s' % (kn, at), True)}
+        gv = [c for st in lo.body for c in ast.walk(st) if isinstance(c, ast.Call) and isinstance(c.func, ast.Attribute) and c.func.attr == 'get_value']
+        ok_ts = bool(gv)
+        wn = None
+        for c in gv:
+            wn = norm(c.func.value)
+            wr = [norm(x) for x in assigned_from(f, wn)]
+            if 'Node(%s)' % vn not in wr or not (f.has_guard(c, '%s.is_scalar(type(%s))' % (wn, vp), True, expand=False)):
+                ok_ts = False
+        r.check(ok_ts, '%s: get_value() only after is_scalar(type(value)) on Node(value node)' % name, f.key('typestate'), f.loc(),
+                '%s compares the value without first establishing that the node is a scalar of the value\'s type: bool/int/float '
+                'cross-type equality leaks in (true == 1), and get_value() raises on other tags' % name)
+        found_set = [n for st in lo.body for n in ast.walk(st) if isinstance(n, ast.Assign) and norm(n.targets[0]) == 'found']
+        r.check(bool(found_set) and all(_inloop_atoms(f, n, lo) == keyatoms and norm(n.value) == 'True' for n in found_set),
+                '%s: found is set exactly for a str-tagged key equal to the attribute' % name, f.key('found'), f.loc(),
+                '%s marks the attribute as found under another condition' % name)
+        inl = [x for x in f.raises() if any(y is lo for y in S._ancestors_list(x))]
+        outl = [x for x in f.raises() if x not in inl]
+        rets = [x for st in lo.body for x in ast.walk(st) if isinstance(x, ast.Return)]
+        if wn is not None:
+            ts = ('%s.is_scalar(type(%s))' % (wn, vp))
+            if not neg:
+                exp = [keyatoms | {(ts, False)}, keyatoms | {(ts, True), ('%s.get_value() != %s' % (wn, vp), True)}]
+                got = [_inloop_atoms(f, x, lo) for x in inl]
+                r.check(sorted(map(sorted, got)) == sorted(map(sorted, exp)) and not rets, '%s raises for a wrong type and for a '
+                        'different value' % name, f.key('decision'), f.loc(), '%s raises under %s' % (name, [sorted(g) for g in got]))
+            else:
+                exp = [keyatoms | {(ts, True), ('%s.get_value() == %s' % (wn, vp), True)}]
+                got = [_inloop_atoms(f, x, lo) for x in inl]
+                rgot = [_inloop_atoms(f, x, lo) for x in rets]
+                r.check(sorted(map(sorted, got)) == sorted(map(sorted, exp)) and rgot == [keyatoms | {(ts, False)}],
+                        '%s raises for an equal value of the same type, accepts another type' % name, f.key('decision'), f.loc(),
+                        '%s raises under %s / returns under %s' % (name, [sorted(g) for g in got], [sorted(g) for g in rgot]))
+        r.check(len(outl) == 1 and f.has_guard(outl[0], 'found', False, expand=False) and S.raise_class(outl[0]) == 'RecognitionError'
+                and f.cfg.dominates(f.nid(lo.iter), f.nid(outl[0])), '%s raises after the scan iff the key was not found' % name,
+                f.key('not-found'), f.loc(), '%s does not raise exactly when the key is absent' % name)
+        for x in f.raises():
+            r.check(S.raise_class(x) == 'RecognitionError', '%s raises RecognitionError' % name, f.key('raise-class:%s' % S.raise_class(x)),
+                    f.loc(x), '%s raises %s' % (name, S.raise_class(x)))
+    r.done()
